@@ -72,11 +72,13 @@ def _c12_chunk(chunk):
                 modes = ("call",) if entry in retryenv.CALL_ONLY else ("call", "exec")
                 for mode in modes:
                     try:
-                        place = "ctor" if "decorator" in entry or idx % 2 == 0 else "call"
+                        place = "ctor" if "decorator" in entry or idx % 3 == 0 else \
+                            ("call" if idx % 3 == 1 else "both")
                         tr = retryenv.run_scenario(cfg, events, entry=entry, place=place,
                                                    force_mode=mode, site_fault=fault,
                                                    hooks=fault is not None and fault["site"] in ("astart", "aend"),
-                                                   async_callbacks=entry.startswith("Async") and idx % 2 == 1)
+                                                   async_callbacks=(entry.startswith("Async") and
+                                                                    [False, True, "lambda"][idx % 3]))
                     except Exception as exc:  # noqa: BLE001
                         tr = [{"e": "harness-error", "what": f"{type(exc).__name__}: {exc}"}]
                     traces[(entry, mode)] = tr
